@@ -30,9 +30,10 @@ import (
 
 func init() {
 	mon.Register(&mon.Prop{
-		ID:     "C14",
-		Custom: run,
-		Race:   true,
+		ID:           "C14",
+		Custom:       run,
+		CustomReplay: func(c *mon.Custom, raw json.RawMessage) { runWith(c, raw) },
+		Race:         true,
 		Rule: "many short fresh-process histories under the Go race detector: in each child G goroutines (2-64) are released by one barrier so that their first calls (each through a built-in function, i.e. through the lazy function table) overlap, in half of the children with the build-tagged pause hook holding the initialisation open; " +
 			"then a seeded mix of Compile (with lets and a SHARED CompileOptions), Parse and Scan on few distinct sources, error inputs included, and sequential A,B,A histories. oracle: zero race-detector report blocks; every recorded output equals the reference output of the same (entry point, source, options) computed as the first and only call of a fresh single-goroutine process; " +
 			"the shared parameter map is deep-equal to its snapshot; nil, zero-value and empty-map options give identical results. non-trivial = distinct (child, goroutine) history with at least two different calls",
@@ -66,6 +67,12 @@ var sources = []string{
 	"",
 	"T | summarize count() by ia | where iif(true, now() > 0, isnotnull(ia))",
 	"T; U",
+	"let lo = -1; T | where a > lo",
+	"T | where lo == 1 and hi == 2 and n == 3",
+	"let n = -(2); let m = n * 2; T | take 3 | where x == m",
+	"let hi = +5; let lo = (-(1)); T | where a > lo and a < hi",
+	"let k = 'x'; T | where s == k | extend k2 = k",
+	"T | where k == 1 and a == q",
 }
 
 func optionSet() []*pql.CompileOptions {
@@ -240,7 +247,11 @@ func child(args []string) {
 
 var raceBlock = regexp.MustCompile(`(?s)WARNING: DATA RACE.*?==================`)
 
-func run(c *mon.Custom) {
+func run(c *mon.Custom) { runWith(c, nil) }
+
+// runWith runs the check; with a recorded case it re-runs that child
+// configuration (several times, schedules vary) instead of the seeded set.
+func runWith(c *mon.Custom, replayCase json.RawMessage) {
 	race := c.Self
 	plain := strings.TrimSuffix(c.Self, "-race")
 	c.SetShards(16)
@@ -304,6 +315,24 @@ func run(c *mon.Custom) {
 	gs := []int{2, 3, 4, 8, 16, 32, 64}
 	for k := 0; k < nChildren; k++ {
 		jobs = append(jobs, job{k, gs[k%len(gs)], rng.Int63(), k%2 == 0})
+	}
+	if replayCase != nil {
+		var rc struct {
+			Seed       int64 `json:"seed"`
+			Goroutines int   `json:"goroutines"`
+			Calls      int   `json:"calls"`
+			Pause      bool  `json:"pause"`
+		}
+		json.Unmarshal(replayCase, &rc)
+		if rc.Goroutines > 0 {
+			jobs = nil
+			if rc.Calls > 0 {
+				callsPer = rc.Calls
+			}
+			for k := 0; k < 10; k++ {
+				jobs = append(jobs, job{k, rc.Goroutines, rc.Seed, rc.Pause})
+			}
+		}
 	}
 	var mu sync.Mutex
 	raceSeen := map[string]bool{}
